@@ -36,6 +36,10 @@ KNOWN_PRIMES = [
     (1 << 521) - 1,                                                # P-521         (521: 6)
     (1 << 607) - 1,                                                # M607          (607: 5)
     (1 << 1279) - 1,                                               # M1279         (1279: 3)
+    # Proth primes k*2^n + 1 (k < 2^n) proved prime by Proth's theorem: a^((N-1)/2) = -1 mod N for the witness a given
+    223 * (1 << 892) + 1,                                          # 900 bits (a = 3): 3 bases; n - 1 = 2^892 * 223: the longest squaring loop
+    501 * (1 << 992) + 1,                                          # 1001 bits (a = 5): 3 bases
+    87 * (1 << 1302) + 1,                                          # 1309 bits (a = 11): 2 bases (only if the precision allows)
 ]
 
 CORPUS = (["nt_smb jac %s %s" % (hx(a), hx(b)) for (a, b) in
@@ -147,8 +151,25 @@ def gen_jac(rng, w, digs):
 
 
 def gen_rabin(rng, w, digs):
+    line = _gen_prime_line(rng, w, digs)
+    v = rng.choice(["rabin", "rabin", "rabin", "basic", "prime", "prime", "solov"])
+    if v == "solov":
+        # documented for a > 2 (1 and 2 loop forever; 0 and negative values are outside the contract)
+        val = line.split(" ")[2]
+        if val.startswith("-") or int(val, 16) <= 2:
+            v = "prime"
+    return line.replace("nt_prime rabin", "nt_prime " + v, 1)
+
+
+def _gen_prime_line(rng, w, digs):
     lim = digs * w
-    k = rng.below(12)
+    k = rng.below(13)
+    if k == 12:
+        # long composites with a small factor supplied (>= 850 bits when the precision allows: the rows with 3 bases)
+        bits = rng.choice([b for b in (160, 210, 260, 310, 360, 410, 460, 560, 660, 860, 900, 1000, 1020) if b + 8 <= lim])
+        f = rng.choice([3, 7, 211, 223, 227, 3671, 3673, 65537])
+        v = f * (rng.bits(bits) | (1 << (bits - 1)) | 1)
+        return "nt_prime rabin %x C %x" % (v, f)
     if k == 0:
         v = rng.choice(TABLE)
     elif k == 1:
@@ -197,11 +218,20 @@ def gen(rng, w, cap, digs, n):
     # --- bn_is_prime_rabin: every prime of the base table, the primes just above, all small odd numbers
     for p in TABLE + ABOVE:
         out.append("nt_prime rabin %x" % p)
+        out.append("nt_prime basic %x" % p)
+        out.append("nt_prime prime %x" % p)
     for v in range(9, 130, 2):
         out.append("nt_prime rabin %x" % v)
+        out.append("nt_prime %s %x" % (rng.choice(["basic", "prime", "solov"]), v))
+    # trial division: the last entries of either table, their squares and products, numbers just beyond the table
+    for v in [211, 223, 227, 229, 3659, 3671, 3673, 3677, 223 * 223, 223 * 227, 227 * 227, 3671 * 3671, 3671 * 3673, 3673 * 3673, 3673 * 3677,
+              211 * 3673, 2 * 3673, 0, 1, 2, -1, -2, -7, -3673]:
+        out.append("nt_prime basic %s" % hx(v))
+        out.append("nt_prime prime %s" % hx(v))
     for p in KNOWN_PRIMES:
         if p.bit_length() <= digs * w:
             out.append("nt_prime rabin %x P" % p)
+            out.append("nt_prime %s %x P" % (rng.choice(["basic", "prime", "solov"]), p))
     nj = n * 7 // 10
     for _ in range(nj):
         out.append(gen_jac(rng, w, digs))
